@@ -21,10 +21,10 @@ cd /verif
 for c in $CHECKS; do
   VERIF_REPO=$S timeout 1200 ./check $c quick > /tmp/ev/$P-$K.$c.quick.log 2>&1; e=$?
   R="$R | $c quick exit=$e"
-  if [ $e -eq 0 ]; then
+  if [ $e -eq 0 ] && [ -z "${EVAL_QUICK_ONLY:-}" ]; then
     VERIF_NO_COVER=1 VERIF_REPO=$S timeout 3000 ./check $c thorough > /tmp/ev/$P-$K.$c.thorough.log 2>&1; e=$?
     R="$R thorough exit=$e"
   fi
 done
-echo "$R"
+echo "$R" | tee -a /tmp/ev/results.txt
 rm -rf $S
